@@ -525,6 +525,33 @@ class Engine:
 		if isinstance(node.value, ast.Constant):
 			yield st, NORMAL
 			return
+		v = node.value
+		# recognised idiom  d.setdefault(k, []).append(x)  ==  d[k] := d.get(k, []) ++ [x]   (the stored list is the only alias)
+		if (isinstance(v, ast.Call) and isinstance(v.func, ast.Attribute) and v.func.attr == 'append' and len(v.args) == 1
+				and isinstance(v.func.value, ast.Call) and isinstance(v.func.value.func, ast.Attribute) and v.func.value.func.attr == 'setdefault'
+				and len(v.func.value.args) == 2 and isinstance(v.func.value.args[1], ast.List) and not v.func.value.args[1].elts):
+			inner = v.func.value
+			for s1, d in self.ev(inner.func.value, st):
+				if isinstance(d, Raised):
+					yield s1, Outcome('raise', d)
+					continue
+				dv = s1.deref(d)
+				if isinstance(dv, SDict) and isinstance(dv.VT, TSeq):
+					for s2, kx in self.ev_list([inner.args[0], v.args[0]], s1):
+						if isinstance(kx, Raised):
+							yield s2, Outcome('raise', kx)
+							continue
+						k, x = kx
+						dv = s2.deref(d)
+						cur = dv.get(k)       # SSeq (wrapped datatype value)
+						T = dv.VT
+						empty = SSeq(T.T, z3.Const(fresh_name('emptyl'), T.arrsort), 0)
+						base_arr = z3.If(dv.has(k), cur.arr, empty.arr)
+						base_len = z3.If(dv.has(k), cur.length, z3.IntVal(0))
+						new = SSeq(T.T, z3.Store(base_arr, base_len, T.T.unwrap(x)), base_len + 1)
+						s2.heap[d.addr] = dv.set(k, new)
+						yield s2, NORMAL
+					return
 		for s2, v in self.ev(node.value, st):
 			if isinstance(v, Raised):
 				yield s2, Outcome('raise', v)
@@ -1695,7 +1722,14 @@ class Engine:
 		if isinstance(c, SArr):
 			yield st, c.sub(lo, hi)
 		else:
-			raise Unsupported('slice of a symbolic list')
+			# slice of a symbolic list: a new list with the selected elements
+			R = TSeq(c.T).fresh('slice')
+			j = z3.Int(fresh_name('j'))
+			st.assume(R.length == hi - lo)
+			st.assume(z3.ForAll([j], z3.Implies(z3.And(0 <= j, j < hi - lo), z3.Select(R.arr, j) == z3.Select(c.arr, lo + j))))
+			ref = Ref('list')
+			st.heap[ref.addr] = R
+			yield st, ref
 
 	def store_subscript(self, st, obj, idx, v, node):
 		site = f'subscript#{self.nodeidx.sub.get(id(node), "?")}'
@@ -2284,8 +2318,11 @@ class Engine:
 
 	def _comp_symbolic(self, node, g, st, itv, kind):
 		"""[elt for target in <symbolic sequence>]: see generic_map"""
-		if g.ifs or kind != 'list':
-			raise Unsupported('filtered / set comprehension over a symbolic sequence')
+		if kind == 'set':
+			yield from self._setcomp_symbolic(node, g, st, itv)
+			return
+		if g.ifs:
+			raise Unsupported('filtered comprehension over a symbolic sequence')
 
 		def elem(s1, item):
 			for sb, r in self.assign(g.target, item, s1):
@@ -2293,6 +2330,42 @@ class Engine:
 					raise Unsupported('comprehension target unpacking may raise')
 				yield from self.ev(node.elt, sb)
 		yield from self.generic_map(st, itv, elem, node)
+
+	def _setcomp_symbolic(self, node, g, st, itv):
+		"""{x for x in xs if cond(x)} over a symbolic sequence of objects: the set with characteristic predicate
+		S[v] <=> exists j. xs[j] == v and cond(xs[j]); the condition is evaluated once at a generic index and must
+		have a single, effect-free outcome."""
+		if not (isinstance(node.elt, ast.Name) and isinstance(g.target, ast.Name) and node.elt.id == g.target.id):
+			raise Unsupported('set comprehension whose element is not the loop variable')
+		if not isinstance(itv, SSeq) or not isinstance(itv.T, TObj):
+			raise Unsupported('set comprehension over a non-object sequence')
+		j = z3.Int(fresh_name('sj'))
+		s1 = st.fork()
+		s1.assume(z3.And(0 <= j, j < itv.length))
+		pc0 = len(s1.pc)
+		s1.env[g.target.id] = itv.at(j)
+		conds = [(s1, True)]
+		for cnd in g.ifs:
+			nxt = []
+			for s, acc in conds:
+				for s2, v in self.ev(cnd, s):
+					if isinstance(v, Raised):
+						raise Unsupported('set comprehension condition may raise')
+					nxt.append((s2, mk_and(acc, self.truth(s2, v))))
+			conds = nxt
+		if len(conds) != 1:
+			raise Unsupported('set comprehension condition has several outcomes')
+		s2, cond = conds[0]
+		if len(s2.pc) != pc0:
+			raise Unsupported('set comprehension condition adds assumptions')
+		cond = z3.BoolVal(cond) if isinstance(cond, bool) else cond
+		T = itv.T
+		S = SSetT(T, z3.Const(fresh_name('setcomp'), z3.ArraySort(T.sort, B)))
+		v = z3.Const(fresh_name('v'), T.sort)
+		st.assume(z3.ForAll([v], z3.Select(S.arr, v) == z3.Exists([j], z3.And(0 <= j, j < itv.length, z3.Select(itv.arr, j) == v, cond))))
+		ref = Ref('set')
+		st.heap[ref.addr] = S
+		yield st, ref
 
 	def generic_map(self, st, itv, elem, node):
 		"""Element-wise construction of a list from a symbolic sequence: the element computation is evaluated once at
